@@ -157,6 +157,7 @@ def emit(cfg, d, variant=0):
                     grp.append(fi + len(grp))
             if k == "member" and startlib:
                 line += ["--start-lib"] + [objs[g] for g in grp] + ["--end-lib"]
+                archive(d / f"lib{fi}.a", [d / objs[g] for g in grp])    # GNU ld has no --start-lib: see ld_line
             else:
                 an = f"lib{fi}.a"
                 archive(d / an, [d / objs[g] for g in grp], thin=thin)
@@ -182,6 +183,20 @@ def emit(cfg, d, variant=0):
 
 def has_shared(cfg):
     return any(f["kind"] in ("shared", "asneeded") for f in cfg["files"])
+
+
+def ld_line(line):
+    """GNU ld 2.40 has no --start-lib/--end-lib: use the equivalent archive emit() also built."""
+    out, i = [], 0
+    while i < len(line):
+        if line[i] == "--start-lib":
+            j = line.index("--end-lib", i)
+            out.append("lib" + line[i + 1][1:-2] + ".a")
+            i = j + 1
+        else:
+            out.append(line[i])
+            i += 1
+    return out
 
 
 COMMON_FLAGS = ["--no-gc-sections", "--allow-shlib-undefined"]
@@ -222,7 +237,7 @@ def link(linker, line, d, out, threads=None, env=None, extra=None):
             a.append(f"--threads={threads}")
         return run_wild(a, cwd=d, env=env, timeout=30, wild=private_wild())
     if linker == "ld":
-        return sh(["ld", "--allow-shlib-undefined", "-z", "noexecstack"] + args, cwd=d, timeout=60)
+        return sh(["ld", "--allow-shlib-undefined", "-z", "noexecstack"] + ld_line(args), cwd=d, timeout=60)
     if linker == "lld":
         return sh(["ld.lld", "--allow-shlib-undefined"] + args, cwd=d, timeout=60)
     raise ToolError(linker)
@@ -398,7 +413,7 @@ def divergence_key(rec, w, m, aspects):
     return "unexpected"
 
 
-def replay_one(rec, d, idx, seed, aspects, reference, skip_load_divergent=False):
+def replay_one(rec, d, idx, seed, aspects, reference, skip_load_divergent=None):
     """Returns dict(status=..., ...). reference: 'both' | 'ld' | 'lld'."""
     cfg = {"files": rec["files"], "opts": {"allowMultiple": rec["opts"]["allowMultiple"],
                                            "undef": sorted(rec["opts"]["undefs"]),
@@ -427,27 +442,44 @@ def replay_one(rec, d, idx, seed, aspects, reference, skip_load_divergent=False)
     refs_agree = same(G, L, aspects)
     info["support"] = support
     if same(W, R, aspects):
-        info["status"] = "ok" if support else ("ok-oracles-differ" if not refs_agree or reference != "both" else "spec-vs-oracles")
+        if support:
+            info["status"] = "ok"
+        elif reference == "both":
+            info["status"] = "spec-vs-oracles" if refs_agree else "ok-oracles-differ"
+        else:
+            has_m = any(f["kind"] == "member" for f in cfg["files"])
+            info["status"] = "ok-oracles-differ" if has_m else "spec-vs-oracles"
         return info
+    has_member = any(f["kind"] == "member" for f in cfg["files"])
     if not support:
-        info["status"] = "spec-vs-oracles" if (refs_agree and reference == "both") or \
-            (reference == "ld" and not okG) or (reference == "lld" and not okL) else "undecided"
+        if reference == "both":
+            info["status"] = "spec-vs-oracles" if refs_agree else "undecided"
+        elif reference == "ld":
+            # GNU ld scans archives in order: with lazy members its result may legitimately differ
+            info["status"] = "undecided" if has_member else "spec-vs-oracles"
+        else:
+            info["status"] = "spec-vs-oracles"
         return info
     if rec.get("visShared"):
         # a hidden/protected reference + a shared definition: which regular definition is fetched instead is
         # not decided by the property text and the linkers differ
         info["status"] = "unspecified"
         return info
-    if skip_load_divergent and rec.get("loadDiv") and not rec.get("causes") and same(W, M, aspects):
-        info["status"] = "load-divergent"       # a consequence of which members were loaded: C03's matter
-        return info
+    if same(W, M, aspects) and isinstance(skip_load_divergent, dict):
+        # wild behaves exactly as its model predicts and the deviation is fully explained by defects that are
+        # the subject of ANOTHER property (recorded there): not reported twice
+        own = skip_load_divergent
+        causes = set(rec.get("causes") or [])
+        if (causes and not (causes & own["quirks"])) or (not causes and rec.get("loadDiv") and not own["loading"]):
+            info["status"] = "attributed-elsewhere"
+            return info
     info["status"] = "mismatch"
     info["key"] = divergence_key(rec, W, M, aspects)
     return info
 
 
 def replay_records(ctx, prop, records, aspects, reference, jobs=8, known_oracle_classes=None, label="",
-                   skip_load_divergent=False):
+                   skip_load_divergent=None):
     """Replay records (list of (idx, rec)). Reports violations through ctx.verdict. Returns stats."""
     from .common import scratch
     stats = {"replayed": 0, "ok": 0, "ok_oracles_differ": 0, "mismatch": {}, "undecided": 0, "spec_vs_oracles": 0,
@@ -477,7 +509,7 @@ def replay_records(ctx, prop, records, aspects, reference, jobs=8, known_oracle_
                 elif st == "ok-oracles-differ":
                     stats["ok"] += 1
                     stats["ok_oracles_differ"] += 1
-                elif st in ("undecided", "unspecified", "load-divergent"):
+                elif st in ("undecided", "unspecified", "attributed-elsewhere"):
                     stats[st.replace("-", "_")] = stats.get(st.replace("-", "_"), 0) + 1
                 elif st == "spec-vs-oracles":
                     cls = (known_oracle_classes(info) if known_oracle_classes else None)
@@ -566,7 +598,7 @@ def _tlc():
     return tlc
 
 
-def run_plan(ctx, prop, plan, aspects, reference, oracle_known=None, skip_load_divergent=False):
+def run_plan(ctx, prop, plan, aspects, reference, oracle_known=None, skip_load_divergent=None):
     """plan: [(cfg, tlc_timeout, sample_every_k)].  Returns the coverage dict."""
     from .common import build_wild, trim_samples
     build_wild()
